@@ -37,6 +37,12 @@ def build(spec, osyris):
         comps = [osyris.Array(values=np_values(c), unit=c["unit"]) for c in spec["comps"]]
         return osyris.Vector(*comps, name=spec.get("name", ""))
     if k == "num":
+        if spec.get("as") == "fraction":
+            from fractions import Fraction
+            return Fraction(spec["v"])                 # exact numbers that numpy can only hold as objects
+        if spec.get("as") == "decimal":
+            from decimal import Decimal
+            return Decimal(spec["v"])
         return spec["v"]
     if k == "npf":
         # a numpy scalar: np.float64 (a python float subclass) unless another scalar type is named
